@@ -89,8 +89,9 @@ def writeToFile (T : Tool) (src dst : Path) (fs : Fs) : Fs × Except Exc Bool :=
 /-- `os.path.join(output_dir, "%s_conv.xml" % splitext(basename(file_path))[0])` -/
 def convOut (outDir f : Path) : Path := outDir ++ '/' :: (stem f ++ "_conv.xml".toList)
 
-/-- `os.path.join(export_dir, "%s.rdf" % splitext(basename(odml_file))[0])` -/
-def rdfOut (rdfDir src : Path) : Path := rdfDir ++ '/' :: (stem src ++ ".rdf".toList)
+/-- `os.path.join(export_dir, "%s.rdf" % out_name)` with `out_name = splitext(basename(named))[0]`:
+    the RDF file is named after the file `named`. -/
+def rdfOut (rdfDir named : Path) : Path := rdfDir ++ '/' :: (stem named ++ ".rdf".toList)
 
 /-! ### odmlconvert: run_conversion, one file -/
 
@@ -103,27 +104,48 @@ def convStep (T : Tool) (outDir : Path) : Step := fun f fs =>
 
 /-! ### odmltordf: run_rdf_export, run_conversion, one file -/
 
-/-- `run_rdf_export(src, rdf_dir)`: read, render, write `<stem>.rdf`. -/
-def rdfExport (T : Tool) (rdfDir src : Path) (fs : Fs) : Fs × Except Exc Unit :=
+/-- `run_rdf_export(src, rdf_dir, out_name=stem(named))`: read `src`, render, write
+    `<stem of named>.rdf` (`out_name=None`: `named = src`). -/
+def rdfExport (T : Tool) (rdfDir src named : Path) (fs : Fs) : Fs × Except Exc Unit :=
   match T.render src (fs src) with
   | .error e => (fs, .error e)
-  | .ok data => (fs.write (rdfOut rdfDir src) data, .ok ())
+  | .ok data => (fs.write (rdfOut rdfDir named) data, .ok ())
 
-/-- The `except` arm of odmltordf's loop body: convert, then export the converted file. -/
+/-- The `except` arm of odmltordf's loop body: convert, then export the converted file **under the
+    name of the original file** (`run_rdf_export(outfile, rdf_dir, out_name=out_name)`, fix b7276cb;
+    before it the RDF file was named after the intermediate `<stem>_conv.xml`, see
+    `rdfViaConversionLegacy`). -/
 def rdfViaConversion (T : Tool) (outDir rdfDir f : Path) (fs : Fs) : Fs × Except Exc Report :=
   match writeToFile T f (convOut outDir f) fs with
   | (fs1, .error _) => (fs1, .ok .convError)         -- outer except: "[Error] version converting"
   | (fs1, .ok _) =>
-    match rdfExport T rdfDir (convOut outDir f) fs1 with
+    match rdfExport T rdfDir (convOut outDir f) f fs1 with
     | (fs2, .error _) => (fs2, .ok .rdfError)        -- inner except: "[Error] converting … to RDF"
     | (fs2, .ok _) => (fs2, .ok .convertedExported)
 
 def rdfStep (T : Tool) (outDir rdfDir : Path) : Step := fun f fs =>
   if T.loads f (fs f) then                           -- try: odml.load(...)
-    match rdfExport T rdfDir f fs with               --      run_rdf_export(file_path, rdf_dir)
+    match rdfExport T rdfDir f f fs with             --      run_rdf_export(file_path, rdf_dir, fmt)
     | (fs1, .ok _) => (fs1, .ok .exported)
     | (fs1, .error _) => rdfViaConversion T outDir rdfDir f fs1
   else rdfViaConversion T outDir rdfDir f fs
+
+/-- odmltordf before fix b7276cb: `run_rdf_export(outfile, rdf_dir)` named the RDF file of a
+    converted file after the intermediate file, `<stem>_conv.rdf`. -/
+def rdfViaConversionLegacy (T : Tool) (outDir rdfDir f : Path) (fs : Fs) : Fs × Except Exc Report :=
+  match writeToFile T f (convOut outDir f) fs with
+  | (fs1, .error _) => (fs1, .ok .convError)
+  | (fs1, .ok _) =>
+    match rdfExport T rdfDir (convOut outDir f) (convOut outDir f) fs1 with
+    | (fs2, .error _) => (fs2, .ok .rdfError)
+    | (fs2, .ok _) => (fs2, .ok .convertedExported)
+
+def rdfStepLegacy (T : Tool) (outDir rdfDir : Path) : Step := fun f fs =>
+  if T.loads f (fs f) then
+    match rdfExport T rdfDir f f fs with
+    | (fs1, .ok _) => (fs1, .ok .exported)
+    | (fs1, .error _) => rdfViaConversionLegacy T outDir rdfDir f fs1
+  else rdfViaConversionLegacy T outDir rdfDir f fs
 
 /-! ### The loop -/
 
@@ -141,7 +163,7 @@ def loop (step : Step) : List Path → Fs → Fs × Except Exc (List Report)
 /-- What one file may write. -/
 def convOuts (outDir : Path) (f : Path) : List Path := [convOut outDir f]
 def rdfOuts (outDir rdfDir : Path) (f : Path) : List Path :=
-  [convOut outDir f, rdfOut rdfDir f, rdfOut rdfDir (convOut outDir f)]
+  [convOut outDir f, rdfOut rdfDir f]
 
 /-! ### FormatConverter.convert_dir -/
 
